@@ -2214,21 +2214,11 @@ var g = &grammar{
 											pos:  position{line: 453, col: 60, offset: 13902},
 											name: "__",
 										},
-										&choiceExpr{
-											pos: position{line: 453, col: 64, offset: 13906},
-											alternatives: []interface{}{
-												&ruleRefExpr{
-													pos:  position{line: 453, col: 64, offset: 13906},
-													name: "ListSeparator",
-												},
-												&andExpr{
-													pos: position{line: 453, col: 70, offset: 13912},
-													expr: &litMatcher{
-														pos:        position{line: 453, col: 71, offset: 13913},
-														val:        "}",
-														ignoreCase: false,
-													},
-												},
+										&zeroOrOneExpr{
+											pos: position{line: 453, col: 63, offset: 13905},
+											expr: &ruleRefExpr{
+												pos:  position{line: 453, col: 63, offset: 13905},
+												name: "ListSeparator",
 											},
 										},
 										&ruleRefExpr{
